@@ -3,7 +3,12 @@ package main
 // C06 — multi-entry containers list every entry, in order, as if inspected alone.
 //
 // Ops (input / implementation observation):
-//   akeys, khosts : (name data oracle cands layout alone) / (parser-obs inspect-obs 1)
+//   akeys, khosts : (name data oracle cands layout alone blobs) / (parser-obs inspect-obs 1)
+//       blobs  = ((key-blob obs)...)  ssh.ParsePublicKey + attribute builder on every field of every line that is base64:
+//                (0 (type ((name value)...))) | (1) | (2); the model splits the lines into fields itself (Model/Containers.v
+//                auth_line / hosts_line) and is compared with the library's answer for every chunk (oracle)
+//   sshline : (hosts? line blobs expect alone) / obs of the library's line parser + attribute builder on that one line
+//       expect = () | (hosts-value)  the line is a well-formed entry (then alone = (obs) the key described on its own)
 //       oracle = ((chunk obs)...)   what the x/crypto/ssh line parser + attribute builder make of every LF-separated chunk
 //       cands  = ((parser-name obs)...) result of every candidate parser of file.Inspect, in table order
 //       layout = () | (items le trail)   items: (0 line [hosts]) entry | (1 ws) blank | (2 ws text) comment
@@ -11,7 +16,8 @@ package main
 //   pem : (name data dec desc cands layout alone)
 //       dec  = ((len-of-rest () | (type bytes len-of-new-rest))...)  encoding/pem.Decode at every "-----BEGIN " occurrence
 //       desc = ((type bytes obs)...)  parsePEMBlock
-//       layout = () | (items)   items: (0 text type bytes) block | (1 text) other text | (2 text) PGP armor | (3 text) block with an undecodable body
+//       layout = () | (items)   items: (0 text type bytes hdrlines crlf wrap fin) block, written as Model/Containers.v armor writes it
+//                               | (1 text) other text | (2 text) PGP armor | (3 text) block with an undecodable body
 //       alone = (obs...) file.PEMFile on the text of each (0 ..) block alone
 //   jks : (name data secret certs encs cands layout alone)
 //       secret = ((offset (0 consumed seal content) | (2))...)  java.UnmarshalReader + asn1.Unmarshal of the parameters
@@ -103,6 +109,44 @@ func c06Inspect(c *Ctx, name string, data []byte, targets ...string) (SL, Sx) {
 }
 
 // ---------------------------------------------------------------- SSH files
+
+// c06Blobs: the answers of ssh.ParsePublicKey (+ attribute builder) for every field of the text that is
+// valid base64 - the only places where the model of the line parsers consults the library.
+func c06Blobs(data []byte) SL {
+	out := SL{}
+	seen := map[string]bool{}
+	add := func(blob []byte) {
+		if seen[string(blob)] {
+			return
+		}
+		seen[string(blob)] = true
+		blob = append([]byte{}, blob...)
+		out = append(out, SL{SB(blob), guard(func() Sx {
+			typ, attrs, err := file.VerifSSHKeyBlobAttrs(blob)
+			if err != nil {
+				return ObsErr()
+			}
+			l := SL{}
+			for _, a := range attrs {
+				l = append(l, SL{S(a.Name), S(a.Value)})
+			}
+			return ObsOk(SL{S(typ), l})
+		})})
+	}
+	add(nil)
+	for _, ch := range bytes.Split(data, []byte("\n")) {
+		if i := bytes.IndexByte(ch, '\r'); i >= 0 {
+			ch = ch[:i]
+		}
+		for _, f := range bytes.Fields(ch) {
+			buf := make([]byte, base64.StdEncoding.DecodedLen(len(f)))
+			if n, err := base64.StdEncoding.Decode(buf, f); err == nil {
+				add(buf[:n])
+			}
+		}
+	}
+	return out
+}
 
 type sshKeyT struct{ typ, b64 string }
 
@@ -209,10 +253,28 @@ func c06HostsEntry(r *Rng, ks []sshKeyT) sshItem {
 	return sshItem{kind: 0, line: line, key: key, hosts: strings.Join(hs, ", ")}
 }
 
-var c06BlankLF = []string{"", "", " ", "\t", "  \t ", "\v", "\f", "\r", " \r"}
-var c06BlankCRLF = []string{"", "", " ", "\t", "  \t ", "\v", "\f"}
-var c06CommentWs = []string{"", "", " ", "\t"}
-var c06CommentText = []string{"", " comment", "ssh-rsa AAAAB3NzaC1yc2E not a key", " with\ttab", "#", " ünïcode", " ends with space "}
+// white-space-only lines: ASCII blanks, and the Unicode white space bytes.TrimSpace knows (NBSP, NEL, OGHAM SPACE MARK,
+// EM SPACE, LINE SEPARATOR, NARROW NBSP, MEDIUM MATHEMATICAL SPACE, IDEOGRAPHIC SPACE)
+var c06UniSpaces = []string{"\xc2\xa0", "\xc2\x85", "\xe1\x9a\x80", "\xe2\x80\x83", "\xe2\x80\xa8", "\xe2\x80\xaf", "\xe2\x81\x9f", "\xe3\x80\x80"}
+var c06BlankLF = []string{"", "", " ", "\t", "  \t ", "\v", "\f", "\r", " \r", "\t\t\t", "\xc2\xa0", " \xe2\x80\x83\t", "\xe3\x80\x80\xc2\x85"}
+var c06BlankCRLF = []string{"", "", " ", "\t", "  \t ", "\v", "\f", "\xc2\xa0", "\xe1\x9a\x80 ", "\xe2\x80\xa8"}
+var c06CommentWs = []string{"", "", " ", "\t", " \t ", "\xc2\xa0", "\xe2\x80\x83 ", "\v"}
+var c06CommentText = []string{"", " comment", "ssh-rsa AAAAB3NzaC1yc2E not a key", " with\ttab", "#", " ünïcode", " ends with space ",
+	" NUL \x00 inside", "\x00", " CR \r inside", " \xef\xbb\xbf BOM inside", "\xc2\xa0"}
+
+// c06Harmless: every kind of line the property calls harmless, as (kind, ws, text)
+func c06Harmless() []sshItem {
+	long := strings.Repeat(" this comment line is longer than any line buffer;", 1500) // ~75 KB
+	hs := []sshItem{{kind: 1}, {kind: 1, ws: " "}, {kind: 1, ws: "\t"}, {kind: 1, ws: " \t \t"}, {kind: 1, ws: "\v\f"},
+		{kind: 2, text: ""}, {kind: 2, text: " comment"}, {kind: 2, ws: " ", text: " indented"}, {kind: 2, ws: "\t\t", text: "tabs"},
+		{kind: 2, text: " NUL \x00\x00 bytes"}, {kind: 2, text: long}, {kind: 2, ws: "\xc2\xa0", text: " after NBSP"},
+		{kind: 2, text: " ssh-ed25519 AAAAC3NzaC1lZDI1NTE5AAAAIOiCv1id6TYq+r6BdemTegYY5ddZ6PcI6ad+sCedd4xN disabled"}}
+	for _, u := range c06UniSpaces {
+		hs = append(hs, sshItem{kind: 1, ws: u})
+	}
+	hs = append(hs, sshItem{kind: 1, ws: strings.Join(c06UniSpaces, " ")}, sshItem{kind: 2, ws: "\xe2\x80\x83\xe3\x80\x80", text: "#"})
+	return hs
+}
 
 func c06Filler(r *Rng, crlf bool) sshItem {
 	if r.Bool() {
@@ -311,7 +373,29 @@ func c06SSHCase(c *Ctx, op, tag string, data []byte, its []sshItem, crlf bool, t
 		layout = SL{items, Bool(crlf), I(trail)}
 	}
 	pobs := c06_infoObs(func() (file.Info, error) { return parser(file.Info{}, data) })
-	c.Emit(op+":"+tag, SL{S(name), SB(data), oracle, cands, layout, alone}, SL{pobs, insp, I(1)})
+	blobData := data
+	for _, it := range its {
+		if it.kind == 0 {
+			blobData = append(append(append([]byte{}, blobData...), '\n'), it.line...)
+		}
+	}
+	c.Emit(op+":"+tag, SL{S(name), SB(data), oracle, cands, layout, alone, c06Blobs(blobData)}, SL{pobs, insp, I(1)})
+}
+
+// c06LineCase: one line through the library's line parser (op sshline).  expectHosts != nil: the line is a
+// well-formed entry whose key, on its own, is `key` ("type base64 comment").
+func c06LineCase(c *Ctx, tag string, hosts bool, line []byte, wellFormed bool, expectHosts, key string) {
+	lineFn := file.VerifSSHAuthLineAttrs
+	if hosts {
+		lineFn = file.VerifSSHKnownHostsLineAttrs
+	}
+	expect, alone := SL{}, SL{}
+	if wellFormed {
+		expect = SL{S(expectHosts)}
+		alone = SL{c06_infoObs(func() (file.Info, error) { return file.SSHPublicKey(file.Info{}, []byte(key+"\n")) })}
+	}
+	obs := c06_attrsObs(func() ([]file.Attribute, error) { return lineFn(line) })
+	c.Emit("sshline:"+tag, SL{Bool(hosts), SB(line), c06Blobs(line), expect, alone}, obs)
 }
 
 func c06SSHLayoutCase(c *Ctx, op, tag string, its []sshItem, crlf bool, trail int) {
@@ -378,6 +462,9 @@ func genC06SSH(c *Ctx) {
 	c06SSHLayoutCase(c, "khosts", "corpus", []sshItem{hent("example.com", ed), hent("other.example", rsa)}, true, 1)
 	c06SSHLayoutCase(c, "khosts", "corpus", []sshItem{hent("example.com", ed), hent("other.example", rsa)}, false, 1)
 	c06SSHLayoutCase(c, "khosts", "corpus", []sshItem{{kind: 2, text: " only a comment"}}, false, 1)
+	// known finding C06-ssh-quoted-key: a quoted option that holds, after a blank, the base64 of a key blob
+	edf, rsaf := strings.Fields(ed), strings.Fields(rsa)
+	c06SSHLayoutCase(c, "akeys", "quoted-key", []sshItem{ent(ed), {kind: 0, line: `command="echo ` + edf[1] + ` >>log" ` + rsaf[0] + " " + rsaf[1] + " me@host", key: rsaf[0] + " " + rsaf[1] + " me@host"}}, false, 1)
 	// an unparsable line among good ones (decided behaviour: the file is an error, nothing is listed partially)
 	c06SSHCase(c, "akeys", "badline", []byte(ed+"\nthis is not a key\n"+rsa+"\n"), nil, false, 1)
 	c06SSHCase(c, "khosts", "badline", []byte("example.com "+ed+"\nthis is not a key line at all\n"), nil, false, 1)
@@ -434,6 +521,54 @@ func genC06SSH(c *Ctx) {
 			}
 		}
 	}
+	// ---- every harmless line kind in every position (before the first entry, between, after the last, everywhere),
+	//      LF and CRLF, with and without the final newline ----
+	harmless := c06Harmless()
+	for _, op := range []string{"akeys", "khosts"} {
+		e1, e2 := ent(ed), ent(rsa)
+		if op == "khosts" {
+			e1, e2 = hent("a.example", ed), hent("b.example,c.example", rsa)
+		}
+		for hi, h := range harmless {
+			for pos := 0; pos < 4; pos++ {
+				for ci, crlf := range []bool{false, true} {
+					if !c.Thorough() && (hi+pos+ci)%2 == 1 && len(h.text) < 1000 {
+						continue
+					}
+					if len(h.text) > 1000 && (pos == 3 || (crlf && pos != 1)) && !c.Thorough() {
+						continue // the 75 KB comment: a few placements are enough for the quick tier
+					}
+					var its []sshItem
+					if pos == 0 || pos == 3 {
+						its = append(its, h)
+					}
+					its = append(its, e1)
+					if pos == 1 || pos == 3 {
+						its = append(its, h)
+					}
+					its = append(its, e2)
+					if pos == 2 || pos == 3 {
+						its = append(its, h)
+					}
+					c06SSHLayoutCase(c, op, "harmless", its, crlf, 1)
+					if pos == 2 {
+						c06SSHLayoutCase(c, op, "harmless", its, crlf, 0) // the harmless line is the last one and unterminated
+					}
+				}
+			}
+		}
+		// a file of harmless lines only: readable, no entries
+		c06SSHLayoutCase(c, op, "harmless", harmless[:8], false, 1)
+		// not among the harmless kinds (property text: blank lines, comment lines, CRLF, trailing newline): a UTF-8 byte
+		// order mark makes the first line something else - an entry line still parses (the key type field is ignored), a
+		// BOM before '#' or alone on a line is a rejected line: the file is an error (model = implementation, no spec verdict)
+		bom := "\xef\xbb\xbf"
+		c06SSHCase(c, op, "bom", []byte(bom+e1.line+"\n"+e2.line+"\n"), nil, false, 1)
+		c06SSHCase(c, op, "bom", []byte(bom+"# comment\n"+e1.line+"\n"), nil, false, 1)
+		c06SSHCase(c, op, "bom", []byte(bom+"\n"+e1.line+"\n"), nil, false, 1)
+		c06SSHCase(c, op, "bom", []byte(e1.line+"\n\x00\n"), nil, false, 1)
+		c06SSHCase(c, op, "bom", []byte(e1.line+"\n\xe2\x80\x8b\n"), nil, false, 1) // ZERO WIDTH SPACE is not white space
+	}
 	// ---- malformed stream: mutations of valid files ----
 	nm := 150
 	if c.Thorough() {
@@ -459,6 +594,123 @@ func genC06SSH(c *Ctx) {
 	}
 }
 
+// ---------------------------------------------------------------- single lines (op sshline)
+
+var c06QuotedOptions = []string{`command="echo hi"`, `command="a,b c"`, `command="say \"hi\" there"`, `environment="A=B C",no-pty`,
+	`from="*.example.com, 10.0.0.?"`, `command="#"`, `command=""`, `no-pty,command="x y"`, "command=\"tab\there\"",
+	`permitopen="host:22",command="a  b"`, `command="/bin/sh -c \"exit 0\"",no-X11-forwarding`, `restrict`, `a,b,,c`, `command="ends with backslash\\\\ x"`}
+
+func c06RandOption(r *Rng) string {
+	names := []string{"command", "from", "environment", "permitopen", "principals", "x"}
+	flags := []string{"no-pty", "restrict", "cert-authority", "no-agent-forwarding", "X"}
+	var parts []string
+	for k := 1 + r.Intn(3); k > 0; k-- {
+		if r.Intn(3) == 0 {
+			parts = append(parts, flags[r.Intn(len(flags))])
+			continue
+		}
+		alphabet := []string{"a", "b", " ", " ", "\t", ",", `\"`, "#", "=", "/", `\\x`, "-"}
+		var sb strings.Builder
+		for n := r.Intn(8); n > 0; n-- {
+			sb.WriteString(alphabet[r.Intn(len(alphabet))])
+		}
+		parts = append(parts, names[r.Intn(len(names))]+`="`+sb.String()+`"`)
+	}
+	return strings.Join(parts, ",")
+}
+
+func genC06Lines(c *Ctx) {
+	r := c.R
+	ks := c06SSHKeys(r)
+	ed := strings.Fields(string(fixture("ssh/id_ed25519.pub")))
+	rsa := strings.Fields(string(fixture("ssh/id_rsa_1024.pub")))
+	sep := func() string { return c06Seps[r.Intn(len(c06Seps))] }
+	// ---- corpus ----
+	c06LineCase(c, "corpus", false, []byte(ed[0]+" "+ed[1]+" me@host"), true, "", ed[0]+" "+ed[1]+" me@host")
+	c06LineCase(c, "corpus", false, []byte(`command="echo hi",no-pty `+ed[0]+" "+ed[1]+" me@host"), true, "", ed[0]+" "+ed[1]+" me@host")
+	c06LineCase(c, "corpus", false, []byte(`command="say \"hi\" # x" `+rsa[0]+"\t"+rsa[1]), true, "", rsa[0]+" "+rsa[1])
+	c06LineCase(c, "corpus", true, []byte("@cert-authority *.example.org "+ed[0]+" "+ed[1]+" ca"), true, "*.example.org", ed[0]+" "+ed[1]+" ca")
+	c06LineCase(c, "corpus", true, []byte("a.example,b.example "+rsa[0]+" "+rsa[1]+" two words"), true, "a.example, b.example", rsa[0]+" "+rsa[1]+" two words")
+	// a quoted option that holds, after a blank, something that is itself a key blob (x/crypto/ssh tries the text
+	// after the first blank of the line as "base64 key, comment" before it looks for options)
+	c06LineCase(c, "quoted-key", false, []byte(`command="echo `+ed[1]+` >>log" `+rsa[0]+" "+rsa[1]+" me@host"), true, "", rsa[0]+" "+rsa[1]+" me@host")
+	// rejected lines
+	for _, l := range []string{"", "#", "# comment", "   ", "oneword", ed[0], ed[0] + " ", ed[0] + " notbase64!", ed[0] + " AAAA",
+		`command="unterminated ` + ed[0] + " " + ed[1], `command="x" `, `command="x" ` + ed[0], "no-pty " + ed[0] + " AAAA c",
+		ed[0] + "\xc2\xa0" + ed[1], "\xef\xbb\xbf# comment", "\x00", ed[0] + " " + ed[1][:len(ed[1])-2] + " c"} {
+		c06LineCase(c, "rejected", false, []byte(l), false, "", "")
+	}
+	for _, l := range []string{"", "# c", "host", "host " + ed[0], "host " + ed[0] + " AAAA", "@revoked host " + ed[0], "@revoked host " + ed[0] + " " + ed[1] + " a b",
+		"host " + ed[0] + " " + ed[1] + " a b c", "host\xc2\xa0" + ed[0] + "\xc2\xa0" + ed[1], "h1 h2 " + ed[0] + " " + ed[1], "@ host " + ed[0] + " " + ed[1],
+		"host " + ed[0] + "\xc2\xa0x " + ed[1]} {
+		c06LineCase(c, "rejected", true, []byte(l), false, "", "")
+	}
+	// ---- authorized_keys lines: options with quoted blanks, commas, escaped quotes ----
+	n := 160
+	if c.Thorough() {
+		n = 4000
+	}
+	for i := 0; i < n; i++ {
+		k := ks[r.Intn(len(ks))]
+		cm := c06Comments[r.Intn(len(c06Comments))]
+		key := k.typ + " " + k.b64
+		line := k.typ + sep() + k.b64
+		if cm != "" {
+			key += " " + cm
+			line += sep() + cm
+		}
+		switch r.Intn(4) {
+		case 0:
+		case 1:
+			line = c06QuotedOptions[r.Intn(len(c06QuotedOptions))] + sep() + line
+		default:
+			line = c06RandOption(r) + sep() + line
+		}
+		if r.Intn(6) == 0 {
+			line = []string{" ", "\t", "  ", "\v", "\xc2\xa0"}[r.Intn(5)] + line
+		}
+		if r.Intn(6) == 0 {
+			line += []string{" ", "\t", "\r", " \r", "\r ignored", "\f", "\xe2\x80\x83"}[r.Intn(7)]
+		}
+		c06LineCase(c, "auth", false, []byte(line), true, "", key)
+	}
+	// ---- known_hosts lines ----
+	for i := 0; i < n; i++ {
+		it := c06HostsEntry(r, ks)
+		line := it.line
+		if r.Intn(6) == 0 {
+			line = []string{" ", "\t", "\xc2\xa0"}[r.Intn(3)] + line
+		}
+		if r.Intn(6) == 0 {
+			line += []string{" ", "\t", "\r", "\r x y z"}[r.Intn(4)]
+		}
+		c06LineCase(c, "hosts", true, []byte(line), true, it.hosts, it.key)
+	}
+	// ---- malformed stream: mutated lines, no expectation but model = library ----
+	nm := 250
+	if c.Thorough() {
+		nm = 6000
+	}
+	for i := 0; i < nm; i++ {
+		hosts := r.Bool()
+		var line string
+		if hosts {
+			line = c06HostsEntry(r, ks).line
+		} else {
+			line = c06AuthEntry(r, ks).line
+			if r.Bool() {
+				line = c06RandOption(r) + sep() + line
+			}
+		}
+		d := c06Mutate(r, []byte(line))
+		if r.Intn(3) == 0 {
+			d = c06Mutate(r, d)
+		}
+		d = bytes.ReplaceAll(d, []byte("\n"), []byte(" "))
+		c06LineCase(c, "malformed", hosts, d, false, "", "")
+	}
+}
+
 // ---------------------------------------------------------------- PEM bundles
 
 type pemBlockT struct {
@@ -469,6 +721,56 @@ type pemBlockT struct {
 
 func (b pemBlockT) text() []byte {
 	return pem.EncodeToMemory(&pem.Block{Type: b.typ, Headers: b.hdr, Bytes: b.bytes})
+}
+
+// hdrLines: the header lines in the order encoding/pem.Encode writes them (Proc-Type first, then sorted)
+func (b pemBlockT) hdrLines() []string {
+	var ls, keys []string
+	for k := range b.hdr {
+		if k != "Proc-Type" {
+			keys = append(keys, k)
+		}
+	}
+	sort.Strings(keys)
+	if v, ok := b.hdr["Proc-Type"]; ok {
+		ls = append(ls, "Proc-Type: "+v)
+	}
+	for _, k := range keys {
+		ls = append(ls, k+": "+b.hdr[k])
+	}
+	return ls
+}
+
+// c06Armor writes a block the way other writers do: base64 lines of any width (0: one line), LF or
+// CRLF, the END line terminated or not.  wrap 64, LF, fin is what pem.EncodeToMemory produces.
+func c06Armor(b pemBlockT, wrap int, crlf, fin bool) []byte {
+	le := "\n"
+	if crlf {
+		le = "\r\n"
+	}
+	var w bytes.Buffer
+	w.WriteString("-----BEGIN " + b.typ + "-----" + le)
+	if hl := b.hdrLines(); len(hl) > 0 {
+		for _, h := range hl {
+			w.WriteString(h + le)
+		}
+		w.WriteString(le)
+	}
+	if len(b.bytes) > 0 {
+		e := base64.StdEncoding.EncodeToString(b.bytes)
+		if wrap > 0 {
+			for len(e) > wrap {
+				w.WriteString(e[:wrap] + le)
+				e = e[wrap:]
+			}
+		}
+		w.WriteString(e + le)
+	}
+	w.WriteString("-----END " + b.typ + "-----")
+	if fin {
+		w.WriteString(le)
+	}
+	return w.Bytes()
 }
 
 func c06PEMPool(r *Rng) []pemBlockT {
@@ -530,6 +832,9 @@ type pemItem struct {
 	kind int // 0 block, 1 text, 2 PGP armor, 3 undecodable block
 	text []byte
 	blk  pemBlockT
+	wrap int // kind 0: how the block is written (c06Armor)
+	crlf bool
+	fin  bool
 }
 
 func c06ToCRLF(b []byte) []byte { return bytes.ReplaceAll(b, []byte("\n"), []byte("\r\n")) }
@@ -568,7 +873,11 @@ func c06PEMCase(c *Ctx, tag string, data []byte, its []pemItem) {
 		for _, it := range its {
 			switch it.kind {
 			case 0:
-				items = append(items, SL{I(0), SB(it.text), S(it.blk.typ), SB(it.blk.bytes)})
+				hl := SL{}
+				for _, h := range it.blk.hdrLines() {
+					hl = append(hl, S(h))
+				}
+				items = append(items, SL{I(0), SB(it.text), S(it.blk.typ), SB(it.blk.bytes), hl, Bool(it.crlf), I(it.wrap), Bool(it.fin)})
 				t := it.blk.text()
 				alone = append(alone, c06_infoObs(func() (file.Info, error) { return file.PEMFile(file.Info{}, t) }))
 			default:
@@ -590,11 +899,22 @@ func c06PEMRender(its []pemItem) []byte {
 }
 
 func c06PEMBlockItem(b pemBlockT, crlf bool) pemItem {
-	t := b.text()
-	if crlf {
-		t = c06ToCRLF(t)
+	return c06PEMBlockItemW(b, 64, crlf, true)
+}
+
+func c06PEMBlockItemW(b pemBlockT, wrap int, crlf, fin bool) pemItem {
+	t := c06Armor(b, wrap, crlf, fin)
+	if wrap == 64 && fin {
+		// the harness's writer against the standard library's
+		want := b.text()
+		if crlf {
+			want = c06ToCRLF(want)
+		}
+		if !bytes.Equal(t, want) {
+			panic("c06Armor differs from pem.EncodeToMemory for type " + b.typ)
+		}
 	}
-	return pemItem{kind: 0, text: t, blk: b}
+	return pemItem{kind: 0, text: t, blk: b, wrap: wrap, crlf: crlf, fin: fin}
 }
 
 func c06JunkItem(r *Rng, crlf bool, rich bool) pemItem {
@@ -650,6 +970,9 @@ func genC06PEM(c *Ctx) {
 			cut := len(c06PEMRender(its)) - len(d)
 			its = append([]pemItem{}, its...)
 			its[n].text = its[n].text[:len(its[n].text)-cut]
+			if its[n].kind == 0 {
+				its[n].fin = false // the END line of the last block ends the file
+			}
 		case 2:
 			its = append(append([]pemItem{}, its...), pemItem{kind: 1, text: []byte("\n")})
 			d = c06PEMRender(its)
@@ -710,6 +1033,32 @@ func genC06PEM(c *Ctx) {
 			}
 			emit(tag, its, trail)
 		}
+	}
+	// blocks as other writers produce them: lines of any width (0: one line), LF and CRLF mixed inside one
+	// file, headers, the END line of the last block ending the file
+	widths := []int{0, 1, 3, 4, 48, 63, 64, 65, 76, 1000}
+	nv := 40
+	if c.Thorough() {
+		nv = 600
+	}
+	for k := 0; k < nv; k++ {
+		n := 1 + c.R.Intn(4)
+		var its []pemItem
+		for i := 0; i < n; i++ {
+			crlf := c.R.Bool()
+			if c.R.Intn(3) == 0 {
+				its = append(its, c06JunkItem(c.R, crlf, false))
+			}
+			fin := true
+			if i == n-1 && c.R.Intn(3) == 0 {
+				fin = false
+			}
+			its = append(its, c06PEMBlockItemW(pool[c.R.Intn(len(pool))], widths[c.R.Intn(len(widths))], crlf, fin))
+		}
+		if its[len(its)-1].fin && c.R.Intn(3) == 0 {
+			its = append(its, c06JunkItem(c.R, false, false))
+		}
+		c06PEMCase(c, "written", c06PEMRender(its), its)
 	}
 	// every pool block once alone and once between two others
 	for i, b := range pool {
@@ -1108,6 +1457,40 @@ func genC06JKS(c *Ctx) {
 		emit("corpus", true, []jksEntry{{typ: 3, alias: "s", date: 7, blob: b.blob, seal: b.seal, key: b.key}, {typ: 1, alias: "k", date: 8, key: keys[len(keys)-3], certs: []jksCert{good}}})
 	}
 	emit("corpus", false, []jksEntry{})
+	// ---- the limits of the stream format: everything the reader accepts must be listed ----
+	emitV := func(tag string, jce bool, version uint32, mac []byte, es []jksEntry) {
+		magic := keystore.JKSMagic
+		if jce {
+			magic = keystore.JCEKSMagic
+		}
+		c06JKSCase(c, tag, c06WriteJKS(magic, version, es, mac), magic, version, es, mac)
+	}
+	zeroMac, ffMac := make([]byte, 20), bytes.Repeat([]byte{0xff}, 20)
+	longAlias := strings.Repeat("a", 65535) // the longest alias a u16 length can announce
+	for _, jce := range []bool{false, true} {
+		emitV("limits", jce, 2, zeroMac, []jksEntry{{typ: 2, alias: longAlias, date: 1, certs: []jksCert{good}}, {typ: 1, alias: longAlias, date: 2, key: keys[0], certs: []jksCert{good2}}})
+		// modified UTF-8 as java.io.DataOutputStream.writeUTF produces it: NUL as C0 80, a supplementary character as a surrogate pair
+		emitV("limits", jce, 2, ffMac, []jksEntry{{typ: 2, alias: "nul\xc0\x80inside", date: 3, certs: []jksCert{good}}, {typ: 2, alias: "\xed\xa0\xbd\xed\xb8\x80", date: 4, certs: []jksCert{good2}}, {typ: 2, alias: "raw\x00nul", date: 5, certs: []jksCert{good}}})
+		// chains of length 0, an empty key, empty certificates
+		emitV("limits", jce, 2, zeroMac, []jksEntry{{typ: 1, alias: "nochain", date: 6, key: keys[0]}, {typ: 1, alias: "nokey", date: 7}, {typ: 2, alias: "emptycert", date: 8, certs: []jksCert{{"X.509", nil}}}, {typ: 2, alias: "emptytype", date: 9, certs: []jksCert{{"", nil}}}})
+		// timestamps at the limits of int64 milliseconds
+		emitV("limits", jce, 2, ffMac, []jksEntry{{typ: 2, alias: "min", date: 1 << 63, certs: []jksCert{good}}, {typ: 2, alias: "max", date: 1<<63 - 1, certs: []jksCert{good}},
+			{typ: 2, alias: "minus1", date: ^uint64(0), certs: []jksCert{good}}, {typ: 2, alias: "zero", date: 0, certs: []jksCert{good}}})
+		// the version field is not interpreted
+		for _, v := range []uint32{0, 1, 3, 0xffffffff} {
+			emitV("limits", jce, v, zeroMac, []jksEntry{{typ: 2, alias: "v", date: 10, certs: []jksCert{good}}})
+		}
+		emitV("limits", jce, 0xffffffff, ffMac, []jksEntry{})
+		// a SecretKeyEntry under either magic, first, last and between other entries
+		if len(blobs) > 0 {
+			b := blobs[len(blobs)-1]
+			sec := jksEntry{typ: 3, alias: "secret", date: 11, blob: b.blob, seal: b.seal, key: b.key}
+			emitV("limits", jce, 2, zeroMac, []jksEntry{sec})
+			emitV("limits", jce, 2, zeroMac, []jksEntry{sec, {typ: 2, alias: "t", date: 12, certs: []jksCert{good}}, sec, {typ: 1, alias: "k", date: 13, key: keys[0], certs: []jksCert{good, good2}}, sec})
+		}
+		// entry types the reader does not know have no body
+		emitV("limits", jce, 2, zeroMac, []jksEntry{{typ: 0, alias: "zero", date: 14}, {typ: 0xffffffff, alias: "max", date: 15}, {typ: 2, alias: "t", date: 16, certs: []jksCert{good}}})
+	}
 	// ---- generated stores ----
 	maxN, per := 8, 12
 	if c.Thorough() {
@@ -1169,6 +1552,7 @@ func genC06(c *Ctx) {
 	// stream.  Re-seed from the first (fully mixed) output so that seeds 1, 2, 3 ... are unrelated.
 	c.R = NewRng(c.R.U64())
 	genC06SSH(c)
+	genC06Lines(c)
 	genC06PEM(c)
 	genC06JKS(c)
 	os.RemoveAll(filepath.Join(c.Tmp, "c06"))
